@@ -8,6 +8,7 @@ import (
 	"os"
 	"os/exec"
 	"path/filepath"
+	"sort"
 	"strings"
 	"time"
 
@@ -262,76 +263,135 @@ func c12genInputs(bound int) []struct{ name, text string } {
 	return out
 }
 
-func c12mapOrders(c *fw.Check, maxDev int) {
-	sitesSeen := map[string]bool{}
+// c12moResult is what one map-order worker (one input) reports.
+type c12moResult struct {
+	Input string              `json:"input"`
+	Cases int64               `json:"cases"`
+	Sites []string            `json:"sites"`
+	Hits  []string            `json:"hits"`
+	Viols []c12moViol         `json:"violations"`
+	Texts map[string]struct{} `json:"-"`
+	Error string              `json:"error,omitempty"`
+	Over  bool                `json:"over_budget"`
+}
+
+type c12moViol struct {
+	Sig    string  `json:"signature"`
+	Detail c12case `json:"detail"`
+}
+
+func c12moInputs(maxDev int) []struct{ name, text string } {
 	inputs := append([]struct{ name, text string }(nil), c12inputs...)
 	genBound := 0
 	if maxDev >= 2 {
 		genBound = 1
 	}
-	gi := c12genInputs(genBound)
-	c.Extra["generated_batches_as_inputs"] = len(gi)
-	inputs = append(inputs, gi...)
-	for _, in := range inputs {
-		if c.OverBudget() {
-			break
+	return append(inputs, c12genInputs(genBound)...)
+}
+
+// c12mapOrdersOne explores the map-order permutations of one input (the arranger is process-wide
+// state, so inputs are explored in separate worker processes).
+func c12mapOrdersOne(in struct{ name, text string }, maxDev int, deadline time.Time) c12moResult {
+	res := c12moResult{Input: in.name}
+	sitesSeen := map[string]bool{}
+	generated := strings.HasPrefix(in.name, "generated-batch")
+	base, hits := c12runArranged(in.text, nil)
+	res.Cases++
+	for _, h := range hits {
+		sitesSeen[h.site] = true
+		res.Hits = append(res.Hits, fmt.Sprintf("%s(%d keys)", h.site, h.n))
+	}
+	type dv struct {
+		hit  int
+		perm []int
+	}
+	var singles []dv
+	for hi, h := range hits {
+		for _, p := range permsOf(h.n) {
+			singles = append(singles, dv{hi, p})
 		}
-		generated := strings.HasPrefix(in.name, "generated-batch")
-		base, hits := c12runArranged(in.text, nil)
-		c.Case("map|"+in.name+"|default", base)
-		for _, h := range hits {
-			sitesSeen[h.site] = true
+	}
+	seenSig := map[string]bool{}
+	run := func(devs []dv) {
+		m := map[int][]int{}
+		var desc []string
+		for _, d := range devs {
+			m[d.hit] = d.perm
+			desc = append(desc, fmt.Sprintf("%s#%d perm %v", hits[d.hit].site, d.hit, d.perm))
 		}
-		type dv struct {
-			hit  int
-			perm []int
-		}
-		var singles []dv
-		for hi, h := range hits {
-			for _, p := range permsOf(h.n) {
-				singles = append(singles, dv{hi, p})
+		got, _ := c12runArranged(in.text, m)
+		res.Cases++
+		if got != base {
+			what := "printed module differs"
+			if strings.HasPrefix(got, "ERR") != strings.HasPrefix(base, "ERR") || strings.HasPrefix(got, "PANIC") != strings.HasPrefix(base, "PANIC") {
+				what = "accept/reject verdict differs"
+			}
+			sig := "maporder/" + hits[devs[0].hit].site
+			if !seenSig[sig] {
+				seenSig[sig] = true
+				res.Viols = append(res.Viols, c12moViol{sig, c12case{Part: "map-order", Input: in.name, Hits: desc, Want: fw.Trunc(base, 1500), Got: fw.Trunc(got, 1500), What: what}})
 			}
 		}
-		run := func(devs []dv) {
-			m := map[int][]int{}
-			var desc []string
-			for _, d := range devs {
-				m[d.hit] = d.perm
-				desc = append(desc, fmt.Sprintf("%s#%d perm %v", hits[d.hit].site, d.hit, d.perm))
-			}
-			got, _ := c12runArranged(in.text, m)
-			c.Case("map|"+in.name+"|"+strings.Join(desc, ";"), got)
-			c.Valid(1)
-			if got != base {
-				what := "printed module differs"
-				if strings.HasPrefix(got, "ERR") != strings.HasPrefix(base, "ERR") || strings.HasPrefix(got, "PANIC") != strings.HasPrefix(base, "PANIC") {
-					what = "accept/reject verdict differs"
+	}
+	for _, d := range singles {
+		run([]dv{d})
+	}
+	if maxDev >= 2 && !generated {
+	pairs:
+		for i := 0; i < len(singles); i++ {
+			for j := i + 1; j < len(singles); j++ {
+				if singles[i].hit == singles[j].hit {
+					continue
 				}
-				c.Violation("maporder/"+hits[devs[0].hit].site, c12case{Part: "map-order", Input: in.name, Hits: desc, Want: fw.Trunc(base, 1500), Got: fw.Trunc(got, 1500), What: what})
-			}
-		}
-		for _, d := range singles {
-			run([]dv{d})
-		}
-		if maxDev >= 2 && !generated {
-			for i := 0; i < len(singles); i++ {
-				for j := i + 1; j < len(singles); j++ {
-					if singles[i].hit == singles[j].hit {
-						continue
-					}
-					if c.OverBudget() {
-						break
-					}
-					run([]dv{singles[i], singles[j]})
+				if time.Now().After(deadline) {
+					res.Over = true
+					break pairs
 				}
+				run([]dv{singles[i], singles[j]})
 			}
 		}
-		if in.name == "A" {
-			var hs []string
-			for _, h := range hits {
-				hs = append(hs, fmt.Sprintf("%s(%d keys)", h.site, h.n))
-			}
-			c.Sample(map[string]interface{}{"input": "A", "map_range_hits_in_order": hs, "deviation": "one (thorough: two) hits iterate in a non-sorted permutation"})
+	}
+	for s := range sitesSeen {
+		res.Sites = append(res.Sites, s)
+	}
+	sort.Strings(res.Sites)
+	return res
+}
+
+func c12mapOrders(c *fw.Check, maxDev int) {
+	sitesSeen := map[string]bool{}
+	inputs := c12moInputs(maxDev)
+	c.Extra["generated_batches_as_inputs"] = len(inputs) - len(c12inputs)
+	results := make([]c12moResult, len(inputs))
+	budget := 20 * time.Minute
+	fw.ParallelFor(len(inputs), func(i int) {
+		cmd := exec.Command(os.Args[0], "C12", "--tier", c.Tier, "--maporder-worker", fmt.Sprint(i), "--maxdev", fmt.Sprint(maxDev), "--budget-s", fmt.Sprint(int(budget.Seconds())))
+		cmd.Env = append(os.Environ(), "GOMAXPROCS=1", "GORACE=halt_on_error=0 log_path=/dev/null")
+		var so, se bytes.Buffer
+		cmd.Stdout, cmd.Stderr = &so, &se
+		err := cmd.Run()
+		if e2 := json.Unmarshal(so.Bytes(), &results[i]); e2 != nil || err != nil {
+			results[i].Error = fmt.Sprintf("worker failed: %v %v: %s", err, e2, fw.Trunc(se.String()+so.String(), 1500))
+		}
+	})
+	for i, r := range results {
+		if r.Error != "" {
+			fw.Fatalf("C12 map-order worker for input %s: %s", inputs[i].name, r.Error)
+		}
+		c.DistinctN(r.Cases)
+		c.Valid(r.Cases)
+		c.Outcome("map|" + r.Input + fmt.Sprint(len(r.Viols)))
+		if r.Over {
+			c.Exhaustive = false
+		}
+		for _, s := range r.Sites {
+			sitesSeen[s] = true
+		}
+		for _, v := range r.Viols {
+			c.Violation(v.Sig, v.Detail)
+		}
+		if r.Input == "A" {
+			c.Sample(map[string]interface{}{"input": "A", "map_range_hits_in_order": r.Hits, "deviation": "one (thorough: two) hits iterate in a non-sorted permutation"})
 		}
 	}
 	var ss []string
@@ -608,6 +668,20 @@ func runC12(c *fw.Check) {
 	}
 	if hasArg("--worker") {
 		schedWorkerMain("C12")
+	}
+	if hasArg("--maporder-worker") {
+		var i, md, bs int
+		fmt.Sscan(argValue("--maporder-worker"), &i)
+		fmt.Sscan(argValue("--maxdev"), &md)
+		fmt.Sscan(argValue("--budget-s"), &bs)
+		ins := c12moInputs(md)
+		var r c12moResult
+		if p := fw.Try(func() { r = c12mapOrdersOne(ins[i], md, time.Now().Add(time.Duration(bs)*time.Second)) }); p != "" {
+			r.Error = "panic in map-order worker: " + p
+		}
+		b, _ := json.Marshal(r)
+		os.Stdout.Write(b)
+		os.Exit(0)
 	}
 	c13requireFull()
 	c.Rule = "three owned sources of nondeterminism, each ENUMERATED on the real translator: (a) every `for range map` loop of asm/ir (rewritten through the overlay by go/types, so new loops are included) iterates in canonical order; for each input all non-identity permutations at one hit (thorough: at every pair of hits) are executed and accept/reject + printed text compared with the default order; (b) all histories of depth<=D over {ParseString A/B/rejected C/C2, ParseBytes, Parse(reader: all-at-once, 1 byte/call, data+EOF, zero-length reads), ParseFile, print(last)} in one long-lived process against fresh-process references; A and B reuse the same names/literals/IDs with different meanings; (c) all schedules (vhook scheduler, TSan on each) of concurrent parses/prints. distinct = distinct (input,permutation set) + histories + schedules."
